@@ -1,12 +1,13 @@
 import CE.Cbe.RoundTrip
+import CE.Cbe.Minimal
 import CE.Cbe.Progress
 import CE.Canon
 /-
   Stream-level CBE round trip for the structural fragment of the event alphabet: containers,
   Booleans, null, padding, comments, integers of every width and sign (all three integer event
-  forms), identifiers (markers, references, records, record types), UIDs, strings and resource
+  forms), big integers up to 8192 bits, identifiers (markers, references, records, record types), UIDs, strings and resource
   identifiers of any length (short form and chunk-header form) — streams of any length and
-  nesting.  What is NOT in the fragment: floats, decimals, big numbers beyond 64 bits, times,
+  nesting.  What is NOT in the fragment: floats, decimals, times,
   typed arrays and chunked arrays (their per-event behaviour is tied by the CBE.ENC / CBE.DEC correspondence and
   the round-trip oracle of `bin/check C01`).
 -/
@@ -18,6 +19,7 @@ def simple : Ev → Bool
   | .list | .map | .edge | .node | .endContainer => true
   | .posInt n | .negInt n => decide (n < 2 ^ 64)
   | .int i => decide (-(2 : Int) ^ 63 ≤ i ∧ i < 2 ^ 63)
+  | .bigInt (some i) => decide (i.natAbs < 2 ^ 8192)
   | .marker id | .refLocal id | .record id | .recordType id =>
     decide (0 < id.length ∧ id.length ≤ maxIdentifierLength)
   | .uid b => decide (b.length = 16)
@@ -29,6 +31,8 @@ def renorm : Ev → List Ev
   | .comment _ _ => []
   | .bool b => [if b then .true_ else .false_]
   | .bigInt none => [.null]
+  | .bigInt (some i) =>
+    if i.natAbs < 2 ^ 64 then (if 0 ≤ i then [renormPos i.natAbs] else [renormNeg i.natAbs]) else [.bigInt (some i)]
   | .posInt n => [renormPos n]
   | .negInt n => [renormNeg n]
   | .int i => if 0 ≤ i then [renormPos i.toNat] else [renormNeg (-i).toNat]
@@ -60,6 +64,7 @@ theorem encodeEv_simple (st : EncSt) (e : Ev) (h : simple e = true) :
     cases hsm : smallHeader t s.length with
     | some hd => exact ⟨_, rfl⟩
     | none => rcases h.1 with rfl | rfl <;> exact ⟨_, rfl⟩
+  case bigInt o => cases o <;> exact ⟨_, rfl⟩
   all_goals (simp [simple] at h <;> first
     | exact ⟨_, rfl⟩
     | (rename_i o; cases o <;> simp [simple] at h; exact ⟨_, rfl⟩))
@@ -99,6 +104,41 @@ theorem decodeChunks_single8 (n : Nat) (hn : n < 2 ^ 61) (d rest : Bytes) (hd : 
 /-- the short-string type byte: 0x80 | n = 0x80 + n for n ≤ 15, and it classifies as a short string -/
 theorem short_code : ∀ n : Fin 16, (u8 (0x80 ||| n.val)).toNat = 0x80 + n.val ∧ classify (0x80 + n.val) = .shortStr n.val := by
   decide +kernel
+
+/-- a magnitude of 65 .. 8192 bits written in the typed-length form is read back as a big integer -/
+theorem decodeVarInt_big (neg : Bool) (mag : Nat) (h1 : 2 ^ 64 ≤ mag) (h2 : mag < 2 ^ 8192) (rest : Bytes) :
+    decodeVarInt neg (uleb (byteLen mag) ++ (leBytes (byteLen mag) mag ++ rest)) =
+      .ok (Ev.bigInt (some (if neg then -(mag : Int) else (mag : Int))), rest) := by
+  have hL9 : 9 ≤ byteLen mag := byteLen_ge mag 8 (by simpa using h1)
+  have hL : byteLen mag ≤ 1024 := byteLen_le mag 1024 (by
+    have : (256 : Nat) ^ 1024 = 2 ^ 8192 := by rw [show (256 : Nat) = 2 ^ 8 by rfl, ← Nat.pow_mul]
+    omega)
+  unfold decodeVarInt readUleb
+  rw [unuleb_uleb (byteLen mag) (by omega)]
+  have : ¬ byteLen mag > maxBigIntBytes := by simp [maxBigIntBytes]; omega
+  simp only [this, if_false, bind, Except.bind, takeN_leBytes, leNat_leBytes_byteLen]
+  have h8 : ¬ byteLen mag ≤ 8 := by omega
+  simp [h8]
+
+
+theorem encBigInt_bytes (i : Int) :
+    (encBigInt i).1 =
+      if i.natAbs < 2 ^ 64 then (if 0 ≤ i then encPosInt i.natAbs else encNegInt i.natAbs)
+      else encTypedBig (if 0 ≤ i then tPosInt else tNegInt) i.natAbs := by
+  unfold encBigInt
+  by_cases hneg : i < 0
+  · have h0 : ¬ 0 ≤ i := by omega
+    have hn : (-i).toNat = i.natAbs := by omega
+    simp only [hneg, if_true, h0, if_false, hn]
+    by_cases h63 : -(2 : Int) ^ 63 ≤ i
+    · have : i.natAbs < 2 ^ 64 := by omega
+      simp [h63, this]
+    · simp only [h63, if_false]
+      by_cases h64 : i.natAbs < 2 ^ 64 <;> simp [h64]
+  · have h0 : 0 ≤ i := by omega
+    have hn : i.toNat = i.natAbs := by omega
+    simp only [hneg, if_false, h0, if_true, hn]
+    by_cases h64 : i.natAbs < 2 ^ 64 <;> simp [h64]
 
 theorem decodeOne_byte (c : Nat) (tok : Tok) (hc : classify (u8 c).toNat = tok) (rest : Bytes) :
     decodeOne (u8 c :: rest) = decodeTok tok rest := by
@@ -177,7 +217,43 @@ theorem decodeOne_simple (st : EncSt) (e : Ev) (h : simple e = true) (bs rest : 
       all_goals simp
   case bigInt o =>
     cases o with
-    | some i => simp [simple] at h
+    | some i =>
+      simp [simple] at h
+      simp only [encodeEv] at henc
+      have hb : bs = (encBigInt i).1 := by simp at henc; exact henc.symm
+      subst hb
+      rw [encBigInt_bytes]
+      simp only [renorm]
+      by_cases h64 : i.natAbs < 2 ^ 64
+      · simp only [h64, if_true]
+        by_cases h0 : 0 ≤ i
+        · simp only [h0, if_true]
+          refine ⟨?_, decodeOne_encPosInt _ h64 rest⟩
+          unfold encPosInt; repeat' split
+          all_goals simp
+        · simp only [h0, if_false]
+          refine ⟨?_, decodeOne_encNegInt _ h64 rest⟩
+          unfold encNegInt; repeat' split
+          all_goals simp
+      · simp only [h64, if_false]
+        have hge : 2 ^ 64 ≤ i.natAbs := by omega
+        refine ⟨by simp [encTypedBig], ?_⟩
+        unfold encTypedBig
+        by_cases h0 : 0 ≤ i
+        · simp only [h0, if_true]
+          rw [List.cons_append, List.append_assoc, decodeOne_byte _ .posVar (by decide)]
+          simp only [decodeTok]
+          have hd := decodeVarInt_big false i.natAbs hge h rest
+          have hv : ((i.natAbs : Nat) : Int) = i := by omega
+          simp only [Bool.false_eq_true, if_false, hv] at hd
+          rw [lift_bind_ok _ _ (fun p : Ev × Bytes => ([p.1], p.2)) hd]
+        · simp only [h0, if_false]
+          rw [List.cons_append, List.append_assoc, decodeOne_byte _ .negVar (by decide)]
+          simp only [decodeTok]
+          have hd := decodeVarInt_big true i.natAbs hge h rest
+          have hv : -((i.natAbs : Nat) : Int) = i := by omega
+          simp only [if_true, hv] at hd
+          rw [lift_bind_ok _ _ (fun p : Ev × Bytes => ([p.1], p.2)) hd]
     | none =>
       simp [encodeEv] at henc; subst henc
       exact ⟨by simp, by rw [List.singleton_append, decodeOne_byte _ .null (by decide)]; rfl⟩
@@ -343,7 +419,19 @@ theorem canon_renorm (e : Ev) (h : simple e = true) (xs ys : List Ev) (hcl : cle
   case bigInt o =>
     cases o with
     | none => simp [renorm, canon, hxy]
-    | some i => simp [simple] at h
+    | some i =>
+      simp only [renorm]
+      by_cases h64 : i.natAbs < 2 ^ 64
+      · simp only [h64, if_true]
+        by_cases h0 : 0 ≤ i
+        · have hv : ((i.natAbs : Nat) : Int) = i := by omega
+          simp only [h0, if_true, renormPos]
+          split <;> simp [canon, hxy, hv]
+        · have hv : -((i.natAbs : Nat) : Int) = i := by omega
+          have hne : ¬ i.natAbs = 0 := by omega
+          simp only [h0, if_false, renormNeg]
+          by_cases h1 : i.natAbs ≤ smallIntMax <;> simp [hne, h1, canon, hxy, hv]
+      · simp [h64, canon, hxy]
   case comment m s => simp [renorm, canon, hxy]
   all_goals first
     | (simp [simple] at h; done)
@@ -367,7 +455,14 @@ theorem clean_renorm : ∀ (l : List Ev), l.all simple = true → clean (l.flatM
     case bigInt o =>
       cases o with
       | none => rfl
-      | some i => simp [simple] at h
+      | some i =>
+        simp only [renorm]
+        split
+        · split
+          · unfold renormPos; split <;> rfl
+          · unfold renormNeg; repeat' split
+            all_goals rfl
+        · rfl
     case stringlike t s =>
       simp only [renorm]; repeat' split
       all_goals rfl
